@@ -155,6 +155,7 @@ func fenvNew(conf *fenvConf, rec *fenvRec, state string, hooks []fenvHook) *Envi
 	}
 	env.workflow = workflow.NewAggregatorRole("root", roles)
 	workflow.LinkChildrenToParents(env.workflow)
+	workflow.VerifAttach(env.workflow, env.wfAdapter)
 	env.Sm.SetState(state)
 	return env
 }
